@@ -28,7 +28,9 @@ import (
 // helpers see many iteration orders.  Everything that came out of a map is sorted before printing.
 
 // callback families (identical in Lean: Kinds/C14.lean)
-func c14P(i string) func(int) bool {
+func c14P(i string) func(int) bool { return ft1(c14P0(i)) }
+
+func c14P0(i string) func(int) bool {
 	switch i {
 	case "p0":
 		return func(x int) bool { return x%2 == 0 }
@@ -46,7 +48,9 @@ func c14P(i string) func(int) bool {
 	panic("harness: bad predicate " + i)
 }
 
-func c14F(i string) func(int) int {
+func c14F(i string) func(int) int { return ft1(c14F0(i)) }
+
+func c14F0(i string) func(int) int {
 	switch i {
 	case "f0":
 		return func(x int) int { return x }
@@ -65,7 +69,9 @@ func c14F(i string) func(int) int {
 }
 
 // predicates on (key, value)
-func c14Q(i string) func(int, int) bool {
+func c14Q(i string) func(int, int) bool { return ft2(c14Q0(i)) }
+
+func c14Q0(i string) func(int, int) bool {
 	switch i {
 	case "q0":
 		return func(k, v int) bool { return k%2 == 0 }
@@ -84,7 +90,9 @@ func c14Q(i string) func(int, int) bool {
 }
 
 // key transformations (key, value) -> new key
-func c14G(i string) func(int, int) int {
+func c14G(i string) func(int, int) int { return ft2(c14G0(i)) }
+
+func c14G0(i string) func(int, int) int {
 	switch i {
 	case "g0":
 		return func(k, v int) int { return k }
@@ -103,7 +111,9 @@ func c14G(i string) func(int, int) int {
 }
 
 // predicates on a whole map (all independent of the iteration order)
-func c14M(i string) func(map[int]int) bool {
+func c14M(i string) func(map[int]int) bool { return ft1(c14M0(i)) }
+
+func c14M0(i string) func(map[int]int) bool {
 	switch i {
 	case "m0":
 		return func(m map[int]int) bool { return len(m) >= 2 }
